@@ -8,7 +8,7 @@ The check engine: `./check Cnn --tier quick|thorough [--replay file]`  (DESIGN.m
  4. verdict / failing-input search / evidence / replay files
 Exit 0: property held on everything explored.  Exit 1: VIOLATION line printed.  Exit 2: infrastructure.
 """
-import argparse, importlib, json, os, sys, time, traceback
+import argparse, importlib, json, os, subprocess, sys, time, traceback
 from collections import Counter
 
 from . import core, lean_audit, scope
@@ -73,12 +73,94 @@ def _same_err_kinds(o):
     return o
 
 
+PYOPT_MAX = 160      # cases per group that are also evaluated by an interpreter started with -O
+
+
+def pyopt_start(gname, cases):
+    """start `python -O -m harness.oworker <group>` on the cases (asserts and `if __debug__:` blocks compiled away)"""
+    import pickle, tempfile
+    fin = tempfile.TemporaryFile(); fout = tempfile.TemporaryFile()
+    fin.write(pickle.dumps(cases)); fin.seek(0)
+    p = subprocess.Popen([sys.executable, "-O", "-W", "ignore", "-m", "harness.oworker", gname], cwd=VERIF,
+                         stdin=fin, stdout=fout, stderr=subprocess.DEVNULL)
+    return p, fout
+
+
+def pyopt_collect(handle, n):
+    import pickle
+    p, fout = handle
+    try:
+        p.wait(timeout=900)
+        fout.seek(0)
+        d = pickle.loads(fout.read())
+        if d["debug"] or len(d["results"]) != n:
+            return None
+        return d["results"]
+    except Exception:  # noqa
+        return None
+
+
+def _has_err(o):
+    """some step of the result recorded an exception"""
+    if isinstance(o, dict):
+        if o.get("st") == "err" or any(o.get(k) for k in ("err", "raised", "error", "exc")):
+            return True
+        return any(_has_err(v) for v in o.values())
+    if isinstance(o, (list, tuple)):
+        return any(_has_err(v) for v in o)
+    return isinstance(o, str) and o.endswith("Error")
+
+
+def _canon(o):
+    return json.dumps(o, default=str, sort_keys=True)
+
+
+def pyopt_one(G, case):
+    r = pyopt_collect(pyopt_start(G.NAME, [case]), 1)
+    if r is None:
+        raise core.DriverError("the -O worker (harness/oworker.py) did not answer")
+    return r[0]
+
+
 def run_group(G, pid, cases, oracle):
     """returns (records, disagreements, violations); a record = dict(case, impl, model, diff, viol)"""
-    impl_res = [impl_call(G.impl, c) for c in cases]
+    # a slice of the cases (the regression corpus comes first in `cases`) goes to a second interpreter started with -O
+    step = max(1, len(cases) // PYOPT_MAX)
+    opt_idx = sorted(set(list(range(min(40, len(cases)))) + list(range(0, len(cases), step))))[:PYOPT_MAX + 40]
+    opt_idx = [i for i in opt_idx if isinstance(cases[i], dict) and not cases[i].get("_pyopt")]
+    handle = pyopt_start(G.NAME, [cases[i] for i in opt_idx]) if opt_idx else None
+    impl_res = [pyopt_one(G, c) if (isinstance(c, dict) and c.get("_pyopt")) else impl_call(G.impl, c) for c in cases]
     reqs = [G.request(c) for c in cases]
     replies = run_driver_parallel(reqs)
+    opt_res = pyopt_collect(handle, len(opt_idx)) if handle else None
     recs, dis, vio = [], [], []
+    run_group.pyopt = {"cases": 0 if opt_res is None else len(opt_idx), "differing": 0}
+    if opt_res is not None:
+        for i, iro in zip(opt_idx, opt_res):
+            c, ir, mr = cases[i], impl_res[i], replies[i]
+            # stripped asserts legitimately change what happens on inputs the library rejects by assertion
+            # (any exception at all: an assert's own expression may raise, e.g. len(None) -> TypeError)
+            if _has_err(ir) or _canon(iro) == _canon(ir):
+                continue
+            if bool(getattr(G, "fragile", lambda *_: False)(c, ir, mr)) or scope.excluded(G.NAME, c, ir, mr):
+                continue
+            co = dict(c, _pyopt=True)
+            diff = G.compare(co, _same_err_kinds(iro), _same_err_kinds(mr))
+            v = oracle(co, iro) if oracle else None
+            if not diff and not v:
+                continue
+            if G.compare(c, _same_err_kinds(ir), _same_err_kinds(mr)) and not v:
+                continue                      # already reported for the ordinary interpreter
+            run_group.pyopt["differing"] += 1
+            if v:
+                v = dict(v, what=str(v.get("what")) + "  [interpreter started with -O / PYTHONOPTIMIZE: asserts and "
+                                                      "`if __debug__:` blocks compiled away; same input is fine without -O]")
+            rec = {"case": co, "impl": iro, "model": mr, "diff": diff, "viol": v, "fragile": False, "oos": False}
+            recs.append(rec)
+            if diff:
+                dis.append(rec)
+            if v:
+                vio.append(rec)
     for c, ir, mr in zip(cases, impl_res, replies):
         if mr.get("st") == "bad":
             raise core.DriverError(f"driver rejected request of group {G.NAME}: {mr.get('msg')} case={json.dumps(c, default=str)[:300]}")
@@ -122,7 +204,7 @@ def replay(pid, path):
     G = load_group(data["group"])
     oracle = getattr(G, "ORACLES", {}).get(pid)
     c = data["case"]
-    ir = impl_call(G.impl, c)
+    ir = pyopt_one(G, c) if (isinstance(c, dict) and c.get("_pyopt")) else impl_call(G.impl, c)
     mr = run_driver_parallel([G.request(c)])[0]
     diff = G.compare(c, ir, mr)
     v = oracle(c, ir) if oracle else None
@@ -194,6 +276,7 @@ def main(argv=None):
                                 "fragile_excluded": sum(1 for r in recs if r["fragile"]),
                                 "out_of_scope_excluded": sum(1 for r in recs if r.get("oos")),
                                 "disagreements": len(dis), "oracle_violations": len(vio),
+                                "also_run_under_python_O": getattr(run_group, "pyopt", {}).get("cases", 0),
                                 "exhaustive": bool(getattr(G, "EXHAUSTIVE", {}).get(tier, False)),
                                 "rule": G.RULE}
             all_recs += [(gname, r) for r in recs]
